@@ -6,6 +6,8 @@ import (
 	"fmt"
 	"go/token"
 	"go/types"
+
+	"golang.org/x/tools/go/ssa"
 )
 
 // callPred evaluates the closure f (func(int) bool) at index x in a copy of the state.
@@ -59,4 +61,77 @@ func (e *Enc) sortSearch(fr *Frame, args []Val, guard T, st *State, pos token.Po
 		e.trusted["sort.Search (least index of a monotone predicate; monotonicity is an obligation)"] = true
 	}
 	return Val{Typ: types.Typ[types.Int], L: []T{r}}
+}
+
+// sortFunc: slices.SortFunc(s, cmp) with a function literal cmp. Trusted specification: the
+// elements of s are rearranged (everything outside s[0:len] is untouched); afterwards
+// cmp(s[a], s[b]) <= 0 for all a <= b, every element of the result is an element of the input
+// and vice versa. (cmp is evaluated by inlining the literal; it must not write modelled state.)
+func (e *Enc) sortFunc(fr *Frame, fn *ssa.Function, args []Val, guard T, st *State, pos token.Pos) {
+	s, f := args[0], args[1]
+	sl, ok := fn.Signature.Params().At(0).Type().Underlying().(*types.Slice)
+	if !ok || e.quantDepth > 0 {
+		panic(unsupported("slices.SortFunc on a non-slice"))
+	}
+	elem := sl.Elem()
+	is := e.idxSort()
+	if is.K != SInt {
+		panic(unsupported("slices.SortFunc needs mode int (mathematical indices)"))
+	}
+	at := types.NewArray(elem, 1)
+	old := e.loadAt(st, rowPtr(s.L[0], elem), at)
+	nw := e.freshValNoInv(at, "sorted")
+	nw.Typ = at
+	e.storeAt(st, rowPtr(s.L[0], elem), nw)
+	off, ln := s.L[1], s.L[2]
+	e.qCtr++
+	a := T{is, fmt.Sprintf("sfa!%d", e.qCtr)}
+	b := T{is, fmt.Sprintf("sfb!%d", e.qCtr)}
+	inA := And(e.sle(IntLit64(is, 0), a), e.slt(a, ln))
+	inB := And(e.sle(IntLit64(is, 0), b), e.slt(b, ln))
+	elemAt := func(row Val, i T) Val {
+		v := Val{Typ: elem, L: make([]T, len(row.L))}
+		for k := range row.L {
+			v.L[k] = Select(row.L[k], e.elemIndex(off, i))
+		}
+		return v
+	}
+	// frame: positions outside the slice keep their contents
+	for k := range nw.L {
+		j := T{is, fmt.Sprintf("sfj!%d", e.qCtr)}
+		out := Not(And(e.sle(off, j), e.slt(j, e.addIdx(off, ln))))
+		e.emit(fmt.Sprintf("(assert (=> %s (forall ((%s Int)) (=> %s (= (select %s %s) (select %s %s))))))", guard.E, j.E, out.E, nw.L[k].E, j.E, old.L[k].E, j.E))
+	}
+	// sorted with respect to cmp (skipped when the comparator cannot be evaluated as a pure term, e.g. it calls unknown code)
+	func() {
+		saveOut := len(e.out)
+		defer func() {
+			if r := recover(); r != nil {
+				if _, isU := r.(unsupported); !isU {
+					panic(r)
+				}
+				e.out = e.out[:saveOut]
+				e.approximate("slices.SortFunc: comparator not evaluated, order of the result unknown")
+			}
+		}()
+		e.quantDepth++
+		e.specEval++
+		defer func() { e.quantDepth--; e.specEval-- }()
+		res, _ := e.inline(fr, f.Fn, []Val{elemAt(nw, a), elemAt(nw, b)}, f.Bind, True, st.clone(), 1, "cmp")
+		le := e.sle(res[0].L[0], IntLit64(res[0].L[0].S, 0))
+		e.emit(fmt.Sprintf("(assert (=> %s (forall ((%s Int) (%s Int)) (=> %s %s))))", guard.E, a.E, b.E, And(inA, inB, e.sle(a, b)).E, le.E))
+	}()
+	// same elements
+	same := func(x, y Val) T {
+		var cs []T
+		for k := range x.L {
+			cs = append(cs, Eq(x.L[k], y.L[k]))
+		}
+		return And(cs...)
+	}
+	e.emit(fmt.Sprintf("(assert (=> %s (forall ((%s Int)) (=> %s (exists ((%s Int)) %s)))))", guard.E, a.E, inA.E, b.E, And(inB, same(elemAt(nw, a), elemAt(old, b))).E))
+	e.emit(fmt.Sprintf("(assert (=> %s (forall ((%s Int)) (=> %s (exists ((%s Int)) %s)))))", guard.E, b.E, inB.E, a.E, And(inA, same(elemAt(nw, a), elemAt(old, b))).E))
+	if e.trusted != nil {
+		e.trusted["slices.SortFunc (result is sorted w.r.t. the comparator literal and has the same elements; positions outside the slice untouched)"] = true
+	}
 }
